@@ -90,7 +90,7 @@ def run_cache_rule(ctx, ck, only=None, rule='R-CACHE.owner-only', within=None):
         if within is not None:
             if s.func.qual not in within:
                 continue
-        elif only is not None and key not in only and (s.func.qual, s.attr) not in only:
+        elif only is not None and key not in only and (s.func.qual, s.attr) not in only and ('*', s.attr) not in only:
             continue        # (`only` names sites by key or by (function, attribute) - whatever object holds it)
         if is_registration_idiom(s) or is_first_seen_idiom(ctx, s):
             continue
